@@ -1,0 +1,22 @@
+//go:build verif
+
+package inode
+
+import "github.com/mit-pdos/go-journal/common"
+
+// VerifBlks returns a copy of the block pointers of an in-memory inode.
+func (ip *Inode) VerifBlks() []common.Bnum {
+	b := make([]common.Bnum, len(ip.blks))
+	copy(b, ip.blks)
+	return b
+}
+
+// VerifAccess, when set, is called at the entry of every method that reads or
+// writes the fields of a (shared, cached) inode.
+var VerifAccess func(ip *Inode, what string)
+
+func verifAccess(ip *Inode, what string) {
+	if h := VerifAccess; h != nil {
+		h(ip, what)
+	}
+}
